@@ -308,6 +308,9 @@ func (p PrefixExpression) PrettyPrint(out *PrintState) *PrintState {
 	if needParen {
 		out.Print("(")
 	}
+	if out.Compact && out.last != "" && (p.Literal()[0] == '+' || p.Literal()[0] == '-') && out.last[len(out.last)-1] == p.Literal()[0] {
+		out.Print(" ") // a - -b, a + ++b: without the space the two signs would lex as -- or ++.
+	}
 	out.Print(p.Literal())
 	p.Right.PrettyPrint(out)
 	out.ExpressionPrecedence = oldPrecedence
